@@ -3,7 +3,7 @@ import RB.Model.Loader
 open Lean RB.Drv RB.Loader
 
 def excName : Exc → String
-  | .value => "value" | .index => "index" | .assertion => "assertion"
+  | .value => "value" | .index => "index" | .assertion => "assertion" | .decode => "decode"
 
 def recName : Rec → String
   | .session => "session" | .comment => "comment" | .header => "header"
@@ -74,7 +74,7 @@ def handle (op : String) (j : Json) : Option Json :=
       let pl ← payloadsOf j
       let cfg ← cfgOf j
       let recs := records v pl hdr.toList text.toList
-      let res := load v recs
+      let res := loadText ((getBool? j "decode_tolerant").getD true) v pl hdr.toList text.toList
       let (loaded, runs, benches) := match res with
         | .ok st => (st.loaded, st.runs, st.benches)
         | .error _ => ([], [], [])
